@@ -529,6 +529,39 @@ theorem more_lost_class_only_onto_ancestor (pre post : List (RPath × Entry)) (s
 
 example : ¬ (["d"] : RPath) <:+ ["a"] := by decide
 
+/-! ### a create arriving while the rename runs (trace op `renamelate`, model `renameLateEntry` = `moveEntry` plus one hook)
+
+`moveEntryL_id`: with the identity as hook the model of this op is `moveEntry`. The entry arrives in the source folder after
+the folder was listed; the final non-recursive delete of the source then refuses: -/
+
+/-- /a/b → /e while /a/b/late is created right after /a/b/c was moved: the rename reports an error, the late file is
+    stored under the still existing source, both moved files are stored (under /e), and the judge has no objection -/
+theorem rename_with_concurrent_create_keeps_late_witness :
+    let s := run {} [.create ["c", "b", "a"] (fileE 3 [1]) false, .create ["x", "b", "a"] (fileE 4 [2]) false]
+    let r := renameLateEntry s ["b", "a"] ["e"] ["c", "b", "a"] ["late", "b", "a"] (fileE 9 [5])
+    r.2 = true ∧ r.1.2.1 = Res.err ∧ lookup ["late", "b", "a"] r.1.1.ents = some (fileE 9 [5]) ∧
+    r.1.1.ents.map (·.1) = [["x", "e"], ["late", "b", "a"], ["c", "e"], ["e"], ["b", "a"], ["a"]] ∧ r.1.1.kv = [] ∧
+    judgeRenameLate s ["b", "a"] ["e"] ["late", "b", "a"] r.2
+      { res := r.1.2.1, q := [], d := [], post := r.1.1, fview := [], lview := [], complete := true } = [] := by decide
+
+/-- the judge is not vacuous: the same rename reporting success with /a/b gone (a recursive final delete) has lost the
+    late file -/
+theorem concurrent_create_lost_judged_witness :
+    let s := run {} [.create ["c", "b", "a"] (fileE 3 [1]) false, .create ["x", "b", "a"] (fileE 4 [2]) false]
+    (judgeRenameLate s ["b", "a"] ["e"] ["late", "b", "a"] true
+      { res := Res.ok, q := [], d := [], fview := [], lview := [], complete := true,
+        post := { ents := [(["a"], witnessDir), (["e"], witnessDir), (["c", "e"], fileE 3 [1]), (["x", "e"], fileE 4 [2])] } }).map (·.1)
+      = ["rename/entry-created-meanwhile-lost"] := by decide
+
+/-- a rename whose source does not exist carries out no create and is not judged for one -/
+theorem rename_late_without_source_witness :
+    (renameLateEntry {} ["b", "a"] ["e"] ["c", "b", "a"] ["late", "b", "a"] (fileE 9 [5])).2 = false ∧
+    judgeRenameLate {} ["b", "a"] ["e"] ["late", "b", "a"] false
+      { res := Res.err, q := [], d := [], post := {}, fview := [], lview := [], complete := true } = [] := by decide
+
+/-- the hook-free instance of the concurrent-create model is the rename model -/
+theorem rename_late_model_is_rename (trig : RPath) (f : Nat) : moveEntryL trig id f = moveEntry f := moveEntryL_id trig f
+
 /-! ### tie to the source (T1): the Go functions this model mirrors are the ones it was written against -/
 
 /-- a source edit of any mirrored function changes its hash and breaks this obligation (the model must then be
